@@ -177,16 +177,22 @@ theorem selectMarker_eq_record (db : Int) : selectMarker db = encodeCmd [b "SELE
     List.flatten_cons, List.flatten_nil]
   simp
 
-/-- the replay of a SELECT record: a parsable index is skipped (and never used), an unparsable one
-    ends the replay with success -/
-theorem replay_select (now : Int) (x : Bytes) (rest : List LogItem) (s : State) :
-    replay now (.cmd [b "SELECT", x] :: rest) s =
-      (match parseInt64 x with | some _ => replay now rest s | none => .ok s) := by
+/-- the replay of a SELECT record: a parsable index becomes the database of the records that follow,
+    an unparsable one ends the replay with success -/
+theorem replay_select (now : Int) (db : Int) (x : Bytes) (rest : List LogItem) (s : State) :
+    replay now db (.cmd [b "SELECT", x] :: rest) s =
+      (match parseInt64 x with | some i => replay now i rest s | none => .ok s) := by
   have h1 : (eqFold (b "SELECT") (b "select") && isAscii (b "SELECT")) = true := by decide
   rw [replay]
   · simp only [List.headD_cons, h1, if_true, List.getD_cons_succ, List.getD_cons_zero]
     cases parseInt64 x <;> rfl
   · intro hnil; simp at hnil
+
+/-- on a store whose current index is the initial -1 (fresh start, or right after a rewrite on a fresh
+    log) every write is preceded by its own marker, whatever its database -/
+theorem logAppend_fresh (db : Nat) (r : Bytes) : logAppend (-1) db r = (selectMarker db ++ r, (db : Int)) := by
+  have : ((db : Int) != -1) = true := by simp only [bne_iff_ne, ne_eq]; omega
+  simp [logAppend, this]
 
 /-- a single-digit index is parsed back by the replay's strconv.Atoi -/
 theorem parseInt64_digit (db : Nat) (h9 : db ≤ 9) : parseInt64 (fmtInt db) = some (db : Int) := by
@@ -217,6 +223,21 @@ theorem parseInt64_fmtNat (n : Nat) (h : (n : Int) ≤ maxInt64) : parseInt64 (f
       · simp only [Prod.mk.injEq] at heq; exact ⟨heq.1.symm, heq.2.symm⟩
     obtain ⟨rfl, rfl⟩ := hnd
     simp [hd, hv, hmin, h]
+
+/-- every index in the int64 range, negative ones included, is parsed back by the replay's strconv.Atoi -/
+theorem parseInt64_fmtInt (i : Int) (h1 : minInt64 ≤ i) (h2 : i ≤ maxInt64) : parseInt64 (fmtInt i) = some i := by
+  cases i with
+  | ofNat n => exact parseInt64_fmtNat n h2
+  | negSucc n =>
+    have hd := allDigits_natDigits (n + 1)
+    have hv := digitsVal_natDigits (n + 1)
+    have hfmt : fmtInt (Int.negSucc n) = 45 :: natDigits (n + 1) := rfl
+    rw [hfmt]
+    unfold parseInt64
+    simp only [hd, hv, if_true]
+    have hneg : -(((n + 1 : Nat) : Int)) = Int.negSucc n := by omega
+    rw [hneg]
+    simp [h1, h2]
 
 /-- the marker followed by anything is read back as the record `SELECT db`, for every index -/
 theorem parseCommand_selectMarker (db : Int) (rest : Bytes) :
